@@ -144,6 +144,41 @@ def history(recipe: int, k: int, c0: int, c1: int, c2: int, c3: int) -> bool:
         return _history(recipe, cs)
 
 
+_ACC = {}
+
+
+def accepted_first(recipe):
+    if recipe not in _ACC:
+        acc = []
+        s = recipe_schema(recipe)
+        st = K.id_state()
+        for c in range(NMENU):
+            K.reset_ids(0)
+            try:
+                MENU[c][1](s)
+                acc.append(c)
+            except Exception:      # noqa: BLE001
+                pass
+        K.restore_ids(st)
+        _ACC[recipe] = acc
+    return _ACC[recipe]
+
+
+def history_after_accepted(recipe: int, i0: int, c1: int, c2: int) -> bool:
+    """history() with three commands, the first being the i0-th command the recipe accepts."""
+    recipe = concrete_index(recipe, len(RECIPES))
+    if recipe < 0:
+        return True
+    with untraced(heavy=True):
+        acc = accepted_first(recipe)
+    i0 = concrete_index(i0, len(acc))
+    c1, c2 = concrete_index(c1, NMENU), concrete_index(c2, NMENU)
+    if min(i0, c1, c2) < 0:
+        return True
+    with untraced(heavy=True):
+        return _history(recipe, [acc[i0], c1, c2])
+
+
 def _history(recipe, cs) -> bool:
     K.reset_ids(0)
     s = recipe_schema(recipe)
